@@ -258,7 +258,11 @@ def run(chk):
         else:
             p1 = A1["loops"][0]["var"]
             want1 = sym.padd(cn["ks0_raw"], sym.mul(base_t, p1))
-            if A1["val"] != want1 or (A1["loops"][0]["lo"], A1["loops"][0]["hi"]) != (ZERO, sym.mul(cn["n"], cn["t"])):
+            # the stride may be written as the field this->base or as the value the constructor stores into it
+            bst0 = [p for p in cps if p["kind"] == "store" and p["lv"] == base_t and not p["loops"]]
+            base_v = bst0[0]["val"] if len(bst0) == 1 else base_t
+            same1 = sym.subst(A1["val"], {base_t: base_v}) == sym.subst(want1, {base_t: base_v})
+            if not same1 or (A1["loops"][0]["lo"], A1["loops"][0]["hi"]) != (ZERO, sym.mul(cn["n"], cn["t"])):
                 problems.append("ks1_raw[p] = %s over [%s,%s); expected ks0_raw + base*p over [0,n*t)" % (
                     sym.show(A1["val"]), sym.show(A1["loops"][0]["lo"]), sym.show(A1["loops"][0]["hi"])))
             p2 = A2["loops"][0]["var"]
